@@ -28,7 +28,7 @@ def generate(rng, tier):
     for _ in range(rng.randint(1, 4)):
         spec["ops"].append({"op": "extend", "obj": rng.randrange(n), "other": rng.randrange(n), "mode": rng.choice(["default", "map", "map", "repeat"]),
                             "map_frac": rng.random(), "map_other": [rng.random() for _ in range(6)], "map_self": [rng.random() for _ in range(6)],
-                            "repeat": rng.randint(2, 3)})
+                            "repeat": rng.randint(2, 3), "reuse_map": rng.random() < 0.3})
     return spec
 
 
@@ -68,7 +68,7 @@ def execute(spec, ctx):
                         rc = machine.guarded("c11", "copy", pool.real[a].copy)
                         mc = ma.clone()
                         other_r = machine.guarded("c11", "copy", pool.real[b].copy) if a == b else pool.real[b]
-                        kw = {"structure_index_map": imap} if imap else {}
+                        kw = {"structure_index_map": dict(imap)} if imap else {}
                         where = "extend obj%d by obj%d map=%s (exhaustive)" % (a, b, imap)
                         machine.guarded("c11", where, rc.extend, other_r, **kw)
                         mc.extend(mb.clone(), index_map=imap)
